@@ -97,8 +97,18 @@ func c05Heal(r *rng, id string) {
 					cl.net.mu.Lock()
 					delete(cl.net.nodes, v.tr.addr)
 					cl.net.mu.Unlock()
-					nv, err := cl.net.newNode(idx, c, cl.t0)
+					var nv *simNode
+					var err error
+					if r.chance(1, 3) {
+						// the address is taken over by a member with a new name: the old name is gone for good
+						nv, err = cl.net.newNamedNode(idx, fmt.Sprintf("x%d", idx), c, cl.t0)
+						departed[v.name] = true
+					} else {
+						nv, err = cl.net.newNode(idx, c, cl.t0)
+					}
 					if err == nil {
+						nv.meta = []byte(fmt.Sprintf("restarted-%d-%s", r.intn(1000), nv.name))
+						nv.m.UpdateNode(0) // no peers yet: returns at once; the restarted process advertises new metadata
 						cl.nodes[idx] = nv
 						seedN := cl.live()[0]
 						go nv.m.Join([]string{fmt.Sprintf("%s/%s", seedN.name, seedN.tr.addr)})
